@@ -197,7 +197,7 @@ def h_mps_per_channel(H, net):
         if prod not in alive:
             continue
         calc = layers[name].input_features_calculator
-        H.ensure('[C05] wiring:consumer-is-charged-for-the-alive-channels-of-its-producer', H.eq(H.scalar(calc.features), sum(alive[prod])))
+        H.ensure('[C05,C09] wiring:consumer-is-charged-for-the-alive-channels-of-its-producer', H.eq(H.scalar(calc.features), sum(alive[prod])))
     H.observe('alive', alive)
 
 
@@ -209,7 +209,7 @@ _FUNCS = [_P + 'mps.py::MPS.__init__', _P + 'mps.py::MPS.export', _P + 'mps.py::
           _P + 'graph.py::build_shared_mps_qtz_map', _P + 'graph.py::convert_layers', _P + 'graph.py::autoimport_node', _P + 'graph.py::export_node',
           _P + 'graph.py::add_input_quantizer', _P + 'graph.py::fuse_mps_modules', _P + 'graph.py::register_in_mps_quantizers']
 HARNESSES = [
-    dict(name='whole-mps-per-channel', bounded='enumerated architectures (contracts/whole_mps.py NETS); selection coefficients symbolic, weights and input CONCRETE', fn='h_mps_per_channel', property=['C05'], functions=_FUNCS,
+    dict(name='whole-mps-per-channel', bounded='enumerated architectures (contracts/whole_mps.py NETS); selection coefficients symbolic, weights and input CONCRETE', fn='h_mps_per_channel', property=['C05', 'C09'], functions=_FUNCS,
          quick=[dict(net='chain'), dict(net='depthwise-middle')], thorough=[dict(net=n) for n in ('chain', 'residual', 'depthwise-middle')], timeout=120, crosscheck=2),
     dict(name='whole-mps', bounded='enumerated architectures (contracts/whole_mps.py NETS); selection coefficients symbolic, weights and input CONCRETE', fn='h_mps_whole', property=['C02', 'C05', 'C11', 'C07', 'C18'], functions=_FUNCS,
          quick=[dict(net='chain', training=True), dict(net='residual', training=False), dict(net='depthwise-first', training=False), dict(net='depthwise-middle', training=False)],
